@@ -6,3 +6,7 @@ for p in $(python3 -c "import json; print(' '.join(c['property_id'] for c in jso
   echo "rc=$rc $(echo "$out" | tail -1 | cut -c1-140)"
   [ $rc -ne 0 ] && echo "$out" | grep "^VIOLATION\|^  obligation\|^  tool" | head -6 | cut -c1-220
 done
+# guard against contracts lost by an editing accident: every function listed in the inventory must still be under contract
+./bin/gocv list 2>&1 | awk '{print $1}' | sort > /tmp/gocv-inv-now.$$
+awk '{print $1}' tools/contract_inventory.txt | sort | comm -23 - /tmp/gocv-inv-now.$$ | sed 's/^/CONTRACT-LOST /'
+rm -f /tmp/gocv-inv-now.$$
